@@ -127,6 +127,14 @@ CHECKS.update({
          "DESIGN.md §3 C15"),
 })
 
+CHECKS.update({
+ "C10": ("model_checking",
+         "stateless preemption-bounded exploration (iterated bounds) of proxied-call scenarios on the real Mux under the controlled scheduler: front server thread, client thread, scripted back-end thread and larking's own pump goroutine; conformance replay of every script over real grpc-go transports; -race pass over the real-transport runs",
+         "For every call script (shape x client sequence x half-close or wait-for-status x back-end read/send/finish behaviour incl. every failure point x request metadata x gRPC or HTTP front) every interleaving up to the preemption bound is executed: the back-end must receive exactly what it would receive directly (messages, EOF, metadata), the client exactly the back-end's replies and final status; hangs are deadlocks of the controlled threads. Every script is then re-run end to end with real grpc-go on both sides and compared with a direct call to the back-end.",
+         "The scripted back-end stream follows grpc-go's documented ClientStream contract, confirmed by the conformance pass; response header/trailer metadata is not compared; real-transport schedules are not enumerated.",
+         "DESIGN.md §3 C10"),
+})
+
 NOT_YET = {}
 
 def main():
